@@ -1,10 +1,11 @@
 #!/bin/bash
 # usage: tools/sweep.sh <tier> "<seeds>" [props...]  -- runs checks sequentially, prints one line each
 TIER=$1; SEEDS=$2; shift 2
+ROOT="$(cd "$(dirname "${BASH_SOURCE[0]}")/.." && pwd)"
 PROPS=${@:-C01 C02 C03 C04 C05 C06 C07 C08 C09 C10 C11 C12 C13 C14 C15 C16 C17 C18 C19 C20}
 for P in $PROPS; do for S in $SEEDS; do
   T0=$(date +%s)
-  OUT=$(cd /verif && VERIF_SEED=$S VERIF_OUT_DIR=${SWEEP_OUT:-/tmp/vf_sweep_out} ./check $P --tier $TIER 2>&1); RC=$?
+  OUT=$(cd "$ROOT" && VERIF_SEED=$S VERIF_OUT_DIR=${SWEEP_OUT:-/tmp/vf_sweep_out} ./check $P --tier $TIER 2>&1); RC=$?
   echo "$P tier=$TIER seed=$S exit=$RC wall=$(( $(date +%s) - T0 ))s $(echo "$OUT" | grep -E '^(VIOLATION|INCONCLUSIVE)' | head -3 | tr '\n' ' ' | cut -c1-300)"
   [ $RC -ne 0 ] && echo "$OUT" | grep -E "violated clause" | head -5 | cut -c1-400
 done; done
